@@ -8,6 +8,8 @@ import math
 
 import numpy as np
 
+import c13_cov
+
 from common import cz, cn, cbool, cfloat, clist, copt, cpair
 
 TYPES = ('PLANEX PLANEY PLANEZ PLANE SPHERE CYLX CYLY CYLZ CYL CONEX CONEY '
@@ -286,7 +288,9 @@ def impl_finish(skip, items, vols, u0, u1):
     def fake_vol(_parser, _lat, _cache, _s4, _sm, inline_filled,
                  inline_filling, max_inline_score):
         seen['args'] = (inline_filled, inline_filling, max_inline_score)
-        return dic, {}, surfs, [], (u0, u1)
+        # some volumes are in skipped_cells (importance 0): the writer leaves
+        # their VOLU lines out but still writes their surfaces
+        return dic, {}, surfs, [k for k, _ in vols[::3]], (u0, u1)
     args = argparse.Namespace(input='deck', cache=False,
                               skip_deduplication=skip,
                               always_inline_filled=False,
@@ -477,6 +481,7 @@ def impl_inline(cells, score, rng):
             except KeyError:
                 out = ('err', 'EKey')
             except RecursionError:
+                c13_cov.rearm()
                 out = ('err', 'EFuel')
     finally:
         CI.inline_cells_worker = real
@@ -493,6 +498,7 @@ def impl_inline_plain(cells, score, rng):
         except KeyError:
             return ('err', 'EKey')
         except RecursionError:
+            c13_cov.rearm()
             return ('err', 'EFuel')
     return ('ok', from_cell_dict(dic))
 
@@ -542,6 +548,7 @@ def impl_fill(cells, fd, fg, rng):
     except KeyError:
         return free_key, ('err', 'EKey')
     except RecursionError:
+        c13_cov.rearm()
         return free_key, ('err', 'EFuel')
     return free_key, ('ok', from_cell_dict(dic), conv.new_cell_key)
 
